@@ -56,25 +56,36 @@ func (sc *Scenario) pathText(p []int) []string {
 // closes), and the violation found at the LAST step or by the battery.
 // A violation at an earlier step is returned with early=true.
 func (sc *Scenario) runPath(path []int, battery bool) (inst Instance, vs []*Violation, early bool) {
+	inst, vs, early, _ = sc.runPathKey(path, battery)
+	return
+}
+
+// runPathKey is runPath that also returns the canonical key of the state the
+// path reaches, taken BEFORE the battery runs: the battery may have side effects
+// (a read can purge an expired item), and a key taken after it would merge the
+// state with the one an explicit observing operation leads to - whose successors
+// would then never be explored.
+func (sc *Scenario) runPathKey(path []int, battery bool) (inst Instance, vs []*Violation, early bool, key string) {
 	inst = sc.Fresh()
 	for i, op := range path {
 		if vv := inst.Apply(op); vv != nil {
 			if i < len(path)-1 {
 				if vv.Fatal || vv.Prune {
-					return inst, []*Violation{vv}, true
+					return inst, []*Violation{vv}, true, ""
 				}
 				continue // observation-only violation at a prefix: already reported there
 			}
 			vs = append(vs, vv)
 			if vv.Fatal || vv.Prune {
-				return inst, vs, false
+				return inst, vs, false, ""
 			}
 		}
 	}
+	key = inst.Key()
 	if battery && !sc.NoBattery {
 		vs = append(vs, inst.Battery()...)
 	}
-	return inst, vs, false
+	return inst, vs, false, key
 }
 
 func sigList(vs []*Violation) string {
@@ -129,7 +140,7 @@ func (w *Worker) bfs(sc *Scenario, shardFirst bool) {
 				}
 				path := append(append(make([]int, 0, len(nd.path)+1), nd.path...), op)
 				w.Journal(mustJSON(seqReplay{sc.Name, path, sc.pathText(path)}))
-				inst, vs, early := sc.runPath(path, true)
+				inst, vs, early, pathKey := sc.runPathKey(path, true)
 				w.AddTrans(int64(len(path)))
 				w.AddTraces(1)
 				w.Eval(1)
@@ -180,7 +191,7 @@ func (w *Worker) bfs(sc *Scenario, shardFirst bool) {
 						continue // state diverged: do not expand beyond it
 					}
 				}
-				k := hkey(inst.Key())
+				k := hkey(pathKey)
 				inst.Close()
 				if _, dup := seen[k]; dup {
 					continue
